@@ -76,7 +76,9 @@ class Comparison:
         from litex.gen.fhdl.verilog import convert
         f = top.get_fragment() if not isinstance(top, _Fragment) else top
         self.mems = [s for s in f.specials if isinstance(s, Memory)]
-        other = [s for s in f.specials if not isinstance(s, Memory) and type(s).__name__ not in ("_MemoryPort",)]
+        from migen.fhdl.specials import Instance
+        self.insts = [s for s in f.specials if isinstance(s, Instance)]
+        other = [s for s in f.specials if not isinstance(s, (Memory, Instance)) and type(s).__name__ not in ("_MemoryPort",)]
         if other:
             raise Unsupported("specials other than memories: %r" % sorted({type(s).__name__ for s in other}))
         ports = {m: list(m.ports) for m in self.mems}
@@ -85,6 +87,17 @@ class Comparison:
         undriven_ios = None
         fa = shallow(f)
         from migen.fhdl.tools import list_targets, list_signals
+        # what a black-box Instance receives: one probe signal per input port on the simulation side (not in the text), so that the value of the
+        # FHDL port expression is an ordinary comb signal of the reference semantics (and of the real simulator in the replay)
+        from migen.fhdl.bitcontainer import value_bits_sign
+        self.inst_probes = {}
+        for inst in self.insts:
+            for it in inst.items:
+                if isinstance(it, Instance.Input) and not isinstance(it.expr, (ClockSignal, ResetSignal)):
+                    n_, sg_ = value_bits_sign(it.expr)
+                    pr = Signal((n_, sg_), name_override="vfprobe")
+                    fa.comb.append(pr.eq(it.expr))
+                    self.inst_probes[(inst, it.name)] = pr
         # inputs = ios that nothing drives
         trprobe_targets = set(list_targets(fa.comb))
         for st in fa.sync.values():
@@ -94,7 +107,15 @@ class Comparison:
                 trprobe_targets.add(p.dat_r)
         clks = {cd.clk for cd in f.clock_domains}
         free = {s for s in ios if s not in trprobe_targets and s not in clks}
-        self.tr = tr = Translator(fa, free=free, clocks=tuple(domains)).build()
+        # what an Instance (black box) drives is an input of the rest of the design
+        from migen.fhdl.tools import list_targets as _lt
+        for inst in self.insts:
+            for it in inst.items:
+                if isinstance(it, (Instance.Output, Instance.InOut)):
+                    for sg in _lt([it.expr.eq(0)]) if not isinstance(it.expr, Signal) else [it.expr]:
+                        if sg not in trprobe_targets:
+                            free.add(sg)
+        self.tr = tr = Translator(fa, free=free, clocks=tuple(domains), drop_instances=True).build()
         adr_regs = {}
         for st in flat_iteration(tr.f.comb):
             if isinstance(st, _Assign) and isinstance(st.r, _ArrayProxy) and isinstance(st.r.key, Signal):
@@ -173,6 +194,9 @@ class Comparison:
             p = {}
             sem.run(blk, p, env)
             vexpr.update(p)
+        self.inst_keys = {}
+        self.inst_struct = []
+        self._check_instances(mod, sem, env, vexpr, ns, f)
         var2key = {env[n].get_id(): n for n in env}
         # A net whose always @(*) block reads the net itself before (or without) assigning it: IEEE semantics = re-evaluate until stable.
         # The block's own result is substituted for the old value (fix-point iteration, bounded); if the dependence never goes away the
@@ -244,7 +268,7 @@ class Comparison:
                     self.bad_struct.append("%r assigned in several always blocks" % (k_,))
                 vnext[k_] = v_
                 self.vclk[k_] = clk
-        csub = [(env[n], e) for n, e in vres.items()]
+        csub = [(env[n], e) for n, e in vres.items() if n in env]
         self.vnext = {n: (z3.substitute(e, *csub) if csub else e) for n, e in vnext.items()}
         sres = tr.resolved()
         ssub = [(tr.cur[s], e) for s, e in sres.items()]
@@ -277,6 +301,86 @@ class Comparison:
                 words = [int(x, 16) for x in self.data_files[fn[0]].split()]
                 if words != [v & mask(m.width) for v in m.init]:
                     self.bad_init.append("memory %s: $readmemh content differs from Memory.init" % mn)
+
+    def _check_instances(self, mod, sem, env, vexpr, ns, f):
+        """structure of every emitted instance against the FHDL Instance (module name, parameter list and values, port list in the documented
+        order inputs/outputs/inouts); the printed expression of every input port becomes a pseudo net `inst$<name>.<port>` that run() proves
+        equal to the probe signal of the same port"""
+        from migen.fhdl.specials import Instance
+        bad = self.inst_struct
+        for inst in self.insts:
+            nm = ns.get_name(inst)
+            found = [x for x in mod["instances"] if x["name"] == nm]
+            if len(found) != 1:
+                bad.append("instance %s emitted %d times" % (nm, len(found)))
+                continue
+            pi = found[0]
+            if pi["of"] != inst.of:
+                bad.append("instance %s is of module %s in the text, %s in the design" % (nm, pi["of"], inst.of))
+            params = [i for i in inst.items if isinstance(i, Instance.Parameter)]
+            if [p.name for p in params] != [n for n, _ in pi["params"]]:
+                bad.append("instance %s: parameter list %r differs from %r" % (nm, [n for n, _ in pi["params"]], [p.name for p in params]))
+            else:
+                for p, (_, toks) in zip(params, pi["params"]):
+                    txt = "".join(t[1] for t in toks)
+                    if isinstance(p.value, Constant):
+                        try:
+                            ast = vlog.P(list(toks) + [("eof", "")]).expr()
+                            w_, s_ = sem.selfw(ast)
+                            v = z3.simplify(sem.evself(ast, {})).as_long()
+                            if s_ and v >= (1 << (w_ - 1)):
+                                v -= 1 << w_
+                            if v != p.value.value or bool(s_) != bool(p.value.signed) or w_ < p.value.nbits:
+                                bad.append("instance %s: parameter %s = %s in the text, Constant(%d, (%d, %s)) in the design" % (nm, p.name, txt, p.value.value, p.value.nbits, p.value.signed))
+                        except Exception as e:
+                            bad.append("instance %s: parameter %s = %r not a constant expression (%s)" % (nm, p.name, txt, e))
+                    elif isinstance(p.value, float):
+                        if txt != str(p.value):
+                            bad.append("instance %s: parameter %s = %s in the text, %r in the design" % (nm, p.name, txt, p.value))
+                    elif isinstance(p.value, Instance.PreformattedParam):
+                        if txt != "".join(str(p.value).split()):
+                            bad.append("instance %s: preformatted parameter %s = %s in the text, %s in the design" % (nm, p.name, txt, p.value))
+                    elif isinstance(p.value, str):
+                        if txt != '"%s"' % p.value:
+                            bad.append("instance %s: string parameter %s = %s in the text, %r in the design" % (nm, p.name, txt, p.value))
+            ios_ = [i for i in inst.items if isinstance(i, Instance.Input)] + [i for i in inst.items if isinstance(i, Instance.Output)] + \
+                   [i for i in inst.items if isinstance(i, Instance.InOut)]
+            if [i.name for i in ios_] != [n for n, _ in pi["ports"]]:
+                bad.append("instance %s: port list %r differs from %r" % (nm, [n for n, _ in pi["ports"]], [i.name for i in ios_]))
+                continue
+            for io, (_, ast) in zip(ios_, pi["ports"]):
+                if ast is None:
+                    bad.append("instance %s: port %s left unconnected in the text" % (nm, io.name))
+                    continue
+                if isinstance(io.expr, (ClockSignal, ResetSignal)):
+                    cd = f.clock_domains[io.expr.cd]
+                    want = ns.get_name(cd.clk if isinstance(io.expr, ClockSignal) else cd.rst)
+                    if ast != ("id", want):
+                        bad.append("instance %s: port %s connected to %r instead of %s" % (nm, io.name, ast, want))
+                    continue
+                if isinstance(io, Instance.Input) and (inst, io.name) not in self.inst_probes:
+                    # clock/reset inputs (lowered to the domain's signal by convert()): the connection is checked by name
+                    if not isinstance(io.expr, Signal) or ast != ("id", ns.get_name(io.expr)):
+                        bad.append("instance %s: port %s connected to %r instead of the domain's clock/reset signal" % (nm, io.name, ast))
+                    continue
+                if isinstance(io, Instance.Input):
+                    pr = self.inst_probes[(inst, io.name)]
+                    te = sem.evself(ast, env)
+                    if te.size() < len(pr):
+                        bad.append("instance %s: expression of input %s is %d bits wide in the text, %d in the design" % (nm, io.name, te.size(), len(pr)))
+                        continue
+                    key = "inst$%s.%s" % (nm, io.name)
+                    vexpr[key] = z3.Extract(len(pr) - 1, 0, te) if te.size() > len(pr) else te
+                    self.inst_keys[key] = pr
+                else:
+                    # outputs / inouts: the connected expression must denote exactly the FHDL target (signal, slice, concatenation)
+                    from litex.gen.fhdl.expression import _generate_expression
+                    want = vlog.P(vlog.lex(_generate_expression(ns, io.expr)[0])).expr()
+                    if ast != want:
+                        bad.append("instance %s: %s port %s connected to %r instead of %r" % (nm, type(io).__name__, io.name, ast, want))
+        for pi in mod["instances"]:
+            if pi["name"] not in {ns.get_name(i) for i in self.insts}:
+                bad.append("instance %s in the text has no counterpart in the design" % pi["name"])
 
     def run(self, timeout_ms=20000):
         """returns list of divergences: dict(kind, name, values)"""
@@ -333,6 +437,18 @@ class Comparison:
             elif str(r) != "unsat":
                 unknown += 1
             solver.pop()
+        for key, pr in self.inst_keys.items():
+            ncomb += 1
+            solver.push()
+            solver.add(self.vres[key] != self.sres[pr])
+            r = solver.check()
+            if str(r) == "sat":
+                res.append(dict(kind="comb", name=key, sig=pr, values=model_values(solver.model())))
+            elif str(r) != "unsat":
+                unknown += 1
+            solver.pop()
+        for b in self.inst_struct:
+            res.append(dict(kind="structure", name=b, sig=None, values=None))
         for vn in self.vnext:
             s = self.sig_of.get(vn) if not isinstance(vn, tuple) else None
             if s is not None and s not in self.snext:
